@@ -32,7 +32,8 @@ StMatches ==
     /\ st.bl = Len(buff')
     /\ st.bpos = bpos'
     /\ st.wstart = wstart'
-    /\ IF st.open = 1 THEN active' # NoRun /\ Word(st.active, active', M) ELSE active' = NoRun
+    /\ IF st.open = 1 THEN active' # NoRun /\ Word(st.active, active', M)
+       ELSE active' = NoRun /\ \A i \in 1..32 : st.active[i] = 3      \* u64::MAX
     /\ ("mf" \in DOMAIN st => Word(st.mf, mf', M) /\ Word(st.mr, mr', M))
     /\ ("kl" \in DOMAIN st => st.kl = kl' /\ Word(st.kf, kf', W) /\ Word(st.kr, kr', W))
 
